@@ -41,6 +41,16 @@ ITEMS = []          # (name, group, value, kwargs)
 SHARED = {}
 SHARED_NAMES = []
 SERIAL_STEPS = []
+SERIAL_SHARED = []  # per item: line events inside shared-state functions when printed alone
+PAIRS = []          # stratified sweep workloads: (item index, item index)
+PAIR_NAMES = [('uuid', 'uuid2'), ('uuid', 'uuid_in_list'), ('uuid_in_dict', 'mproxy'), ('enum', 'enum_list'),
+              ('enum', 'intenum'), ('intenum', 'flag'), ('ppath', 'wpath'), ('ppath', 'path_long'),
+              ('partial', 'partialmethod'), ('partial', 'mixed_lazy'), ('mproxy', 'mproxy'),
+              ('h_sub_a', 'h_sub_b'), ('h_base', 'h_sub_a'), ('h_base', 'h_base'), ('h_exact', 'h_sub_a'),
+              ('h_leaf', 'h_mid'), ('h_leaf', 'h_base2'), ('h_mid', 'h_base2'), ('h_sub_nested', 'h_exact'),
+              ('struct_time', 'struct_time2'), ('float_info', 'version_info'), ('stat', 'stat'),
+              ('cyclic', 'cyclic'), ('shared_list', 'shared_list'), ('cyclic', 'uuid'), ('cyclic_twice', 'depth'),
+              ('long_str', 'long_str_nested'), ('commented', 'commented'), ('ast', 'ast'), ('h_pred', 'h_unreg')]
 PROBE_RANGES = {}   # probe -> (funcname, lo, hi)
 
 
@@ -270,11 +280,13 @@ def _measure_serial_steps():
     def go():
         out = []
         for i in range(len(ITEMS)):
-            n = [0]
+            n = [0, 0]
 
             def local(frame, event, arg):
                 if event == 'line':
                     n[0] += 1
+                    if frame.f_code in SHARED:
+                        n[1] += 1
                 return local
 
             def glob(frame, event, arg):
@@ -289,12 +301,15 @@ def _measure_serial_steps():
                     ok = repr(e)
             finally:
                 sys.settrace(None)
-            out.append([n[0], ok])
+            out.append([n[0], ok, n[1]])
         return out
     kind, res = core.in_fork(go, 120)
     if kind != 'ok':
         raise core.HarnessError('serial step measurement failed: %s' % (res,))
     SERIAL_STEPS[:] = [r[0] for r in res]
+    SERIAL_SHARED[:] = [r[2] for r in res]
+    byname = {it[0]: i for i, it in enumerate(ITEMS)}
+    PAIRS[:] = [(byname[a], byname[b]) for a, b in PAIR_NAMES if a in byname and b in byname]
     bad = [ITEMS[i][0] for i, r in enumerate(res) if r[1] is not True]
     if bad:
         # a corpus item that raises when printed alone cannot serve in a "none raises" oracle
@@ -317,6 +332,21 @@ def _pick_item(rng):
 
 
 def generate(rng, idx, tier):
+    kind = idx % 8
+    if kind >= 6 and PAIRS and rng.random() < 0.75:
+        # stratified sweep (seed-indexed, not drawn): pair j of a fixed list, thread A parked at its
+        # k-th shared-state yield point while B runs to completion; k sweeps 1..K_A over successive j
+        j = (idx // 8) * 2 + (kind - 6)
+        a, b = PAIRS[j % len(PAIRS)]
+        rot = j // len(PAIRS)
+        if rot % 2:
+            a, b = b, a
+        ka = max(1, SERIAL_SHARED[a])
+        k = 1 + (rot // 2) % ka
+        est = SERIAL_STEPS[a] + SERIAL_STEPS[b]
+        return dict(threads=[[a], [b]],
+                    sched=dict(seed=rng.randrange(1 << 30), opcode=False, max_steps=est * 60 + 20000,
+                               est_steps=est, policy='strat', strat_tid=0, strat_k=k, sweep=True))
     nthreads = 2 if rng.random() < 0.6 else 3
     threads = []
     focus = _pick_item(rng) if rng.random() < 0.5 else None
@@ -335,7 +365,6 @@ def generate(rng, idx, tier):
                 calls.append(_pick_item(rng))
         threads.append(calls)
     est = sum(SERIAL_STEPS[i] for th in threads for i in th)
-    kind = idx % 8
     sp = dict(seed=rng.randrange(1 << 30), opcode=rng.random() < 0.5,
               max_steps=est * 60 + 20000, est_steps=est)
     if kind in (0, 1):
@@ -415,6 +444,8 @@ def run(spec):
     c['context_switches_forced'] = conc['forced']
     c['lock_block_events'] = conc['lock_blocks']
     c['policy_' + spec['sched']['policy']] = 1
+    if spec['sched'].get('sweep'):
+        c['stratified_sweep_runs'] = 1
     c['granularity_opcode' if spec['sched'].get('opcode') else 'granularity_line'] = 1
     c['calls'] = sum(len(t) for t in spec['threads'])
     res['pairs'] = conc['pairs']
